@@ -9,7 +9,7 @@ from fractions import Fraction
 from decimal import Decimal
 import common
 from common import sx, q, jq, cname, cnum, ok
-from units import U
+from units import U, BLOCK
 import evalreg
 import props.c01 as c01
 import props.c09 as c09
@@ -375,7 +375,14 @@ def cond_passing(c):
 
 
 def cond_model_line(c):
-    """Conditioned(threshold, highest averages) = the highest-averages MODEL on the parties that pass the exact threshold rule"""
+    """Conditioned(threshold, highest averages) = the composed MODEL Model/Conditioned.v conditioned_ha (threshold selector model, the
+    parties it returns kept in the order of the votes, highest-averages model over them) - the function the theorems
+    C11_scale_conditioned_highest_averages / _relative are about"""
+    return '%d (%s %s %s %d () ())' % (BLOCK['C11'] + 0, c16.sel_sx(c['sel']), c01.dsx(c['div']), sx([[p, q(v)] for p, v in c['votes']]), c['n'])
+
+
+def cond_exact_model_line(c):
+    """... and, independently, the highest-averages MODEL on the parties that pass the exact threshold rule computed in the harness"""
     return c01.model_line(dict(c, votes=cond_passing(c), prev=[], caps=[]))
 
 
@@ -484,6 +491,7 @@ def threshold_line(ctx, count, rng):
             ctx.dist['line:rep=' + c['rep']] += 1
     ctx.differential('threshold-line', thr_cases, c16.thr_model_line, thr_impl, canon=c16.thr_canon, nontrivial=big_or_on_line, spec=thr_spec)
     ctx.differential('threshold-conditioned', cond_cases, cond_model_line, cond_impl, canon=c01.canon, nontrivial=big_or_on_line, spec=cond_spec)
+    ctx.differential('threshold-conditioned-exact-rule', cond_cases, cond_exact_model_line, cond_impl, canon=c01.canon, nontrivial=big_or_on_line, spec=cond_spec)
     ctx.differential('threshold-quota-selector', qs_cases, c09.qs_model_line, qsel_impl, canon=c09.canon, nontrivial=big_or_on_line, spec=qsel_spec)
 
 
@@ -801,6 +809,7 @@ def replay_case(ctx, c, stream):
         ctx.differential(stream, [c], c16.thr_model_line, thr_impl, canon=c16.thr_canon, nontrivial=lambda cc: True, spec=thr_spec)
     elif c.get('unit') == 'conditioned_ha':
         ctx.differential(stream, [c], cond_model_line, cond_impl, canon=c01.canon, nontrivial=lambda cc: True, spec=cond_spec)
+        ctx.differential(stream, [c], cond_exact_model_line, cond_impl, canon=c01.canon, nontrivial=lambda cc: True, spec=cond_spec)
     elif c.get('unit') == 'quota_selector':
         ctx.differential(stream, [c], c09.qs_model_line, qsel_impl, canon=c09.canon, nontrivial=lambda cc: True, spec=qsel_spec)
     elif c.get('unit') in ('pav', 'spav'):
